@@ -20,7 +20,7 @@
 use std::{
     alloc::{Layout, handle_alloc_error},
     ptr::NonNull,
-    sync::{Arc, Mutex},
+    sync::{Arc, Mutex, MutexGuard},
 };
 
 use crate::value::{VTable, vtable::DropFn};
@@ -176,7 +176,8 @@ pub mod boundary {
                 return true;
             }
 
-            let this = self.inner.0.lock().unwrap();
+            let (this, other) =
+                ErasedList::lock_both(&self.inner, &other.inner);
 
             // SAFETY: The rawlist represents a slice of T::Transformed so
             // we can safely construct a slice from it's parts as long as we
@@ -187,8 +188,6 @@ pub mod boundary {
                     this.len,
                 )
             };
-
-            let other = other.inner.0.lock().unwrap();
 
             // SAFETY: The rawlist represents a slice of T::Transformed so
             // we can safely construct a slice from it's parts as long as we
@@ -469,8 +468,7 @@ impl PartialEq for ErasedList {
             return true;
         }
 
-        let this = self.0.lock().unwrap();
-        let other = other.0.lock().unwrap();
+        let (this, other) = Self::lock_both(self, other);
 
         if this.len != other.len {
             return false;
@@ -507,6 +505,27 @@ impl ErasedList {
 impl ErasedList {
     pub fn new(vtable: VTable) -> Self {
         Self(Arc::new(Mutex::new(RawList::new(vtable))))
+    }
+
+    /// Lock two different lists
+    ///
+    /// The locks are always taken in the same global order (by address), so
+    /// that two threads locking the same pair of lists (e.g. `a == b` and
+    /// `b == a`) cannot wait for each other forever. The lists must not be
+    /// the same list, since a mutex cannot be locked twice.
+    fn lock_both<'a>(
+        a: &'a Self,
+        b: &'a Self,
+    ) -> (MutexGuard<'a, RawList>, MutexGuard<'a, RawList>) {
+        if Arc::as_ptr(&a.0) < Arc::as_ptr(&b.0) {
+            let guard_a = a.0.lock().unwrap();
+            let guard_b = b.0.lock().unwrap();
+            (guard_a, guard_b)
+        } else {
+            let guard_b = b.0.lock().unwrap();
+            let guard_a = a.0.lock().unwrap();
+            (guard_a, guard_b)
+        }
     }
 
     /// Push a value to this list
